@@ -1,11 +1,18 @@
 #!/bin/bash
-# verify_seed.sh <worktree> <cargo test args for the demo...>
-# runs the demo with the change (must fail), without the source change (must pass) and the full suite with the change
-WT="$1"; shift
-cd "$WT" || exit 2
-export CARGO_TARGET_DIR="$WT/target"
-echo "== demo WITH change:"; cargo test --offline "$@" 2>&1 | grep -E "^test result|panicked at|FAILED|error\[" | head -5
-git stash -q -- src || exit 2
-echo "== demo WITHOUT change:"; cargo test --offline "$@" 2>&1 | grep -E "^test result|error\[" | head -5
-git stash pop -q
-echo "== suite WITH change:"; cargo nextest run --workspace --no-fail-fast --test-threads 8 --offline --tool-config-file pb:/w/lib/nextest.toml --profile pb 2>&1 | grep -E "Summary|^\s+FAIL" | head -8
+# verify_seed.sh <dir with patch.diff demo.diff> <base commit> <cargo test args for the demo...>
+# In a scratch worktree of /repo at <base>: demo with the change (must fail), demo without the change (must pass),
+# full suite with the change (only the demo may fail).  Shares one target dir across calls.
+D="$1"; BASE="$2"; shift 2
+WT=/tmp/seedverify-wt
+export CARGO_TARGET_DIR=/tmp/seedverify-target
+git -C /repo worktree remove --force $WT 2>/dev/null; rm -rf $WT
+git -C /repo worktree add -q $WT "$BASE" || exit 2
+cd $WT || exit 2
+git apply "$D/patch.diff" || { echo "patch.diff does not apply"; exit 2; }
+git apply "$D/demo.diff" || { echo "demo.diff does not apply"; exit 2; }
+echo "== demo WITH change:"; cargo test --offline "$@" 2>&1 | grep -a -E "^test result|\.\.\. FAILED|error\[" | head -6
+git apply -R "$D/patch.diff" || exit 2
+echo "== demo WITHOUT change:"; cargo test --offline "$@" 2>&1 | grep -a -E "^test result|\.\.\. FAILED|error\[" | head -6
+git apply "$D/patch.diff"
+echo "== suite WITH change:"; cargo nextest run --workspace --no-fail-fast --test-threads 8 --offline --tool-config-file pb:/w/lib/nextest.toml --profile pb 2>&1 | grep -a -E "Summary|^\s+FAIL" | sort -u | head -8
+cd /; git -C /repo worktree remove --force $WT
